@@ -18,7 +18,7 @@ LEVEL_NOTE = ("Coq kernel; extraction; the Lua interpreter (gopher-lua) is third
 DESIGN_REF = "DESIGN.md §4 C17"
 RULE = ("scripts generated from rule tables over the addresses and subjects of the dialogue: any subset of the five handlers, each rule "
         "realised as allow / deny(code,msg|defaults) / defer / no answer (nil, false, number, string, table, wrong userdata, runtime error, "
-        "missing return) / message rewrite of any subset of mailboxes, from, to, subject, optionally abandoned by a late error or wrong-typed "
+        "missing return), a second Go-implemented listener registered after the Lua host on both SMTP brokers with its own allow/defer/deny rules (consulted only when the Lua handler did not answer) / message rewrite of any subset of mailboxes, from, to, subject, optionally abandoned by a late error or wrong-typed "
         "return; distinct = distinct input line; non-trivial = something stored or some 5xx reply")
 TRUSTED = ["gopher-lua executes the generated script as the generator intends (outcome class by construction)",
            "net.ParseIP verdicts and enmime header facts are oracles supplied by the driver from the real functions"]
